@@ -119,6 +119,9 @@ Step ==
        CASE e.ev = "Baseline" -> base' = e /\ sim' = <<>> /\ simval' = <<>> /\ isSet' = FALSE
          [] e.ev = "SimCreate" -> CheckCreate(e) /\ sim' = e /\ UNCHANGED <<base, simval>> /\ isSet' = FALSE
          [] e.ev = "SimSet" -> CheckSet(e) /\ simval' = e.val /\ isSet' = TRUE /\ UNCHANGED <<base, sim>>
+         \* another simulation made on the same system (accepted or refused) while this one is switched off leaves the baseline as it was
+         [] e.ev = "SimOther" -> (IF C05 THEN SameAsBaseline(e, "after-another-simulation-" \o e.outcome) ELSE TRUE)
+                                 /\ UNCHANGED <<base, sim, simval, isSet>>
          [] e.ev = "SimReset" -> (IF C05 THEN SameAsBaseline(e, "after-reset") ELSE TRUE) /\ isSet' = FALSE /\ UNCHANGED <<base, sim, simval>>
          [] e.ev = "PlainUpdate" -> CheckPlain(e) /\ (IF e.outcome = "updated" THEN base' = e ELSE UNCHANGED base) /\ UNCHANGED <<sim, simval, isSet>>
          [] e.ev = "SimProbe" -> CheckProbe(e) /\ UNCHANGED <<base, sim, simval, isSet>>
